@@ -3,3 +3,4 @@ pub mod oracle;
 pub mod gen;
 pub mod props;
 pub mod store_kit;
+pub mod sched;
